@@ -230,6 +230,8 @@ def run_interrupt(desc):
                 st["fired"] = True
         if hit:
             holder["H"].interrupt_sent = True
+            if desc["seed"] % 2:
+                time.sleep(0.006)  # (half of the cases: the caller has finished starting its workers and waits for them)
             signal.pthread_kill(main_ident, signal.SIGINT)
             time.sleep(0.04)  # still executing when the calling thread handles the interrupt
         elif st["fired"]:
